@@ -158,6 +158,50 @@ CLAIMED.update({
         note='Sampling of histories, not the exhaustive length-6 enumeration '
         'the quantifier mentions (that would be model checking).'),
 })
+CLAIMED.update({
+    'C09': dict(
+        level='exploration', ref='DESIGN.md section 4 C09',
+        technique=TECH + 'handler programs x injected exceptions x task '
+        'interleavings (seeded cooperative scheduler over greenlets and '
+        'baton-passed real threads) x failing removers; per-task reference '
+        'interpreter over symbolic exception labels',
+        text='Seeded search: 1-3 tasks, each a generated handler program '
+        'around save_and_reraise_exception (context manager, nested to '
+        'depth 4, reraise toggled, inner exceptions raised and caught, new '
+        'exceptions, direct force_reraise), manual capture/force_reraise, '
+        'exception_filter (context manager, direct call, bound method, '
+        'decorator) or remove_path_on_error (real and failing removers on a '
+        'scratch directory), with six exception classes; tasks are '
+        'interleaved at every yield point by the seeded scheduler. Outcome '
+        'per task - which exception object leaves the construct (identity), '
+        'that its traceback ends with the frames of the original raise, '
+        'logger.error calls and their content, file-system effect - is '
+        'compared with a reference interpreter and must not depend on the '
+        'interleaving.',
+        note='Known finding K9 (force_reraise called directly and swallowed '
+        'in the body) is reported as KNOWN-FINDING. Only unambiguous API '
+        'uses are generated.'),
+    'C20': dict(
+        level='fault_enumeration', ref='DESIGN.md section 4 C20',
+        technique=TECH + 'simulated file objects (short reads, read/seek '
+        'errors) and a fault-injecting os proxy over a scratch directory; '
+        'complete errno sweep on makedirs/remove plus seeded cases against a '
+        'whole-file reference',
+        text='Every errno of errno.errorcode is injected into makedirs '
+        '(ensure_tree with the path missing / a directory / a file) and '
+        'into the remove function (delete_if_exists): exactly EEXIST-on-a-'
+        'directory and ENOENT may be swallowed. Seeded cases: '
+        'compute_file_checksum over content sizes around chunk-size '
+        'multiples x chunk sizes x all guaranteed algorithms x short-read '
+        'schedules x read errors (simulated and real files) against the '
+        'one-shot digest and a read-count bound; last_bytes for n around the '
+        'size with seek errors; write_to_tempfile with nested missing '
+        'directories, prefix/suffix, pre-existing files, injected '
+        'write/close/mkstemp/makedirs errors and descriptor accounting.',
+        note='A short os.write is not injected (outside the statement). '
+        'delete_if_exists default remover (bound at import) is exercised '
+        'with real files only.'),
+})
 CLAIMED = {k: v for k, v in CLAIMED.items()
            if os.path.exists(os.path.join(HERE, 'checks', k.lower() + '.py'))}
 
